@@ -395,6 +395,8 @@ def run(ctx):
     only_neighbors(ctx, res)
     from rules import hist
     hist.run(ctx, res, 'C05')       # composition: histories through the public API against the reference model (rules/hist.py)
+    hist.run_sequences(ctx, res, "C05", "links", 4 if ctx.thorough else 3)      # incl. switching the flag and reading between the calls
+    common.vacuity(res, "SEQUENCE", 20000)
     common.vacuity(res, "HISTORY", 14000)
     common.vacuity(res, "CACHED-EQ", 540)
     key_args_rule(ctx, res)
